@@ -25,7 +25,7 @@ func (c AsmConfig) RC() rc.Config {
 
 func AsmCfg(legacy bool) *rapid.Generator[AsmConfig] {
 	return rapid.Custom(func(t *rapid.T) AsmConfig {
-		m := rapid.SampledFrom([]int64{7, 80, 800, 8000, 8192, 55440, 1<<20 + 7}).Draw(t, "M")
+		m := rapid.SampledFrom([]int64{7, 80, 800, 8000, 8192, 55440, 1<<20 + 7, 65536, 8000 + 65536, 131072, 8000 + 131072, 8192 + 65536}).Draw(t, "M")
 		c := AsmConfig{Legacy: legacy, CoreSize: m}
 		if !legacy {
 			c.NOP94 = rapid.Bool().Draw(t, "nop94")
@@ -41,7 +41,7 @@ func AsmCfg(legacy bool) *rapid.Generator[AsmConfig] {
 		if c.Length+c.Distance > m {
 			c.Distance = m - c.Length
 		}
-		c.Processes = rapid.SampledFrom([]int64{1, 64, 8000, 12345}).Draw(t, "P")
+		c.Processes = rapid.SampledFrom([]int64{1, 64, 8000, 12345, 8000 + 65536, 64 + 65536, 1 << 32}).Draw(t, "P")
 		return c
 	})
 }
